@@ -7,6 +7,7 @@ unset GOFLAGS GOTOOLCHAIN GOSUMDB || true
 mkdir -p .work/bin evidence
 (cd go/factgen && go build -o ../../.work/bin/factgen .)
 ./.work/bin/factgen -repo "${VERIF_REPO:-/repo}" -spec facts.d -out lean/TLVerif/Generated || true
+python3 tools/mkdriver.py
 (cd lean && lake build TLVerif tlmodel 2>&1 | grep -v '^trace' | grep -E 'error|✖|Build completed|failed' || true)
 test -x lean/.lake/build/bin/tlmodel
 # warm the Go build cache for the repository packages the harnesses use
